@@ -17,7 +17,7 @@ META = {
     "modules": ["pkgcore.ebuild.filter_env"],
     "functions": ["filter_env.main_run", "filter_env.run", "filter_env.process_scope", "filter_env.is_function/is_envvar", "filter_env.walk_command_complex/walk_dollar_expansion/walk_here_statement/walk_statement_pound", "filter_env.build_regex_string"],
     "stubs": [],
-    "bounds": {"quick": "9 first-definition pairs, second definitions from every third menu entry", "thorough": "same (the space is swept completely in both tiers)"},
+    "bounds": {"quick": "9 first-definition pairs, second definitions from every third menu entry", "thorough": "all 110 first-definition pairs, second definitions from every second menu entry"},
     "outside": ["environments bash did not write itself (hand-written snippets are covered by the pinned tests)", "callbacks (global_envvar_callback / func_callback)", "more than 4 definitions per dump"],
     "assumptions": ["/bin/bash is the reference for what a dump defines"],
     "selector_only": True,
@@ -91,15 +91,15 @@ def in_function(cur):
 
 class FilterHarness(Harness):
     def setup(self, eng):
-        return {"v1": self.ob["v1"], "f1": self.ob["f1"], "v2": eng.int("var2", 0, (len(VARS) - 1) if self.ob["full"] else 2), "f2": eng.int("func2", 0, (len(FUNCS) - 1) if self.ob["full"] else 2), "order": eng.int("order", 0, 1), "filt": eng.int("filters", 0, len(FILTS) - 1)}
+        return {"v1": self.ob["v1"], "f1": self.ob["f1"], "v2": eng.int("var2", 0, 5 if self.ob["full"] else 2), "f2": eng.int("func2", 0, 4 if self.ob["full"] else 2), "order": eng.int("order", 0, 1), "filt": eng.int("filters", 0, len(FILTS) - 1)}
 
     def body(self, inp):
         c = dict(core.fix(inp) if core.ENG is not None else inp)
         c["vf"], c["ff"], c["vwhite"], c["fwhite"] = FILTS[c["filt"]]
-        if not self.ob["full"]:
-            # quick: the second definitions come from every third entry, rotated with the first
-            c["v2"] = (c["v1"] + 1 + 3 * c["v2"]) % len(VARS)
-            c["f2"] = (c["f1"] + 2 + 3 * c["f2"]) % len(FUNCS)
+        # the second definitions come from every third (quick) / every second (thorough) entry, rotated with the first
+        step = 2 if self.ob["full"] else 3
+        c["v2"] = (c["v1"] + 1 + step * c["v2"]) % len(VARS)
+        c["f2"] = (c["f1"] + 2 + step * c["f2"]) % len(FUNCS)
         defs = [VARS[c["v1"]], FUNCS[c["f1"]], VARS[c["v2"]], FUNCS[c["f2"]]]
         if c["order"]:
             defs = [defs[1], defs[3], defs[0], defs[2]]
